@@ -11,11 +11,11 @@ CLAIMED = {
   note="Decided at the ast interface under the parser/printer contracts P and PC of DESIGN.md section 3 (go/parser, go/printer, scanner normalisation such as CRLF/BOM are outside). Bounds: depth 1 children, lists <= 2.",
   design="5/C03"),
  "C04": dict(
-  text="Per node type and per decoration point (forked): a generic instance with <= 2 decorations of forked kind (newline, line comment, one-line block comment; comment bodies opaque strings of any length < 65536) on that point is restored by the real restoreNode from an arbitrary restorer state (symbolic base, cursor, last line, freshness). Solver obligations: every comment decoration is rendered exactly once, in listing order, with its own text; it lies in the gap that the real fragmenter (addNodeFragments run on the restored ast) assigns to that (node, point) - after the preceding token/child, before the following one; Start before the node's first token, End after its last.",
-  note="Reference for 'documented place' is the generated fragmenter, which the repo's TestPositions ties to the documented examples. Points that exist only conditionally (e.g. ChanType.Arrow without arrow) get the range check only. dstutil.Decorations / Decorations() accessors: not yet covered. Printer behaviour is contract PC.",
+  text="Per node type and per decoration point (forked): a generic instance with <= 2 decorations of forked kind (newline, line comment, one-line block comment; comment bodies opaque strings of any length < 65536) on that point is restored by the real restoreNode from an arbitrary restorer state (symbolic base, cursor, last line, freshness). Solver obligations: every comment decoration is rendered exactly once, in listing order, with its own text; it lies in the gap that the real fragmenter (addNodeFragments run on the restored ast) assigns to that (node, point) - after the preceding token/child, before the following one; Start before the node's first token, End after its last; an End comment that begins a line is indented. The same for the Start/X/End points of an expanded package-qualified identifier. Accessors: dstutil.Decorations lists every point in the restorer's render order, backed by the node's storage; Decorations() aliases the node's NodeDecs and writes through it are rendered.",
+  note="Reference for 'documented place' is the generated fragmenter, which the repo's TestPositions ties to the documented examples. Points that exist only conditionally (e.g. ChanType.Arrow without arrow) get the range check only. Printer behaviour is contract PC.",
   design="5/C04"),
  "C05": dict(
-  text="The exact code every generated restoreNode case runs between two siblings (applyDecorations(A.End), applySpace(A.After), applySpace(B.Before), applyDecorations(B.Start)) is executed symbolically from an arbitrary restorer state with symbolic spaces in {None,NewLine,EmptyLine} and forked End/Start decorations; the line breaks between consecutive positioned items are read from the real line table and must equal, capped at one blank line, the documented rule max(After,Before) with line comments / newline decorations contributing exactly their own break. For all cursor/base/length values (LIA/BV obligations).",
+  text="The exact code every generated restoreNode case runs between two siblings (applyDecorations(A.End), applySpace(A.After), applySpace(B.Before), applyDecorations(B.Start)) is executed symbolically from an arbitrary restorer state with symbolic spaces in {None,NewLine,EmptyLine} and forked End/Start decorations; the line breaks between consecutive positioned items are read from the real line table and must equal, capped at one blank line, the documented rule max(After,Before) with line comments / newline decorations contributing exactly their own break. For all cursor/base/length values (LIA/BV obligations). The same rule for two real siblings of each of the 53 node types restored by the real restoreNode, and for package-qualified identifiers; breaks produced by spacing alone lie strictly behind the first sibling's End() (go/printer's parameter lists compare End() lines).",
   note="Bounds: <= 1 (quick) / 2 (thorough) decorations per side. Printer (blank-line capping, where breaks are legal) is contract PC; expression-level NewLine splitting is printer behaviour and not decided here.",
   design="5/C05"),
  "C06": dict(
@@ -47,7 +47,7 @@ CLAIMED = {
 
 CLAIMED.update({
  "C07": dict(
-  text="The real updateImports + restoreNode/restoreIdent are executed on files with one import block of 0-2 specs (name kinds none / symbolic alias / dot / blank, optional cgo spec), 1-2 (thorough 3) identifiers whose path is empty, local or one of three pool paths (plain, dotted, slashed), an optional alias override, and a resolver with symbolic package names, so that name conflicts, renaming and precedence are solver-decided. Obligations on the restored ast: each non-local identifier is a selector on the name bound by the single import of its path (bare only under a dot import), local/empty-path identifiers are bare, each used path is imported exactly once, blank and cgo imports are kept, unused ones removed, nothing else imported, ordinary import names pairwise distinct, override > source alias > resolved name. A path imported twice under two names must end up imported once.",
+  text="The real updateImports + restoreNode/restoreIdent are executed on files with one import block of 0-2 specs (name kinds none / symbolic alias / dot / blank, optional cgo spec), 1-2 (thorough 3) identifiers whose path is empty, local or one of three pool paths (plain, dotted, slashed), an optional alias override, and a resolver with symbolic package names, so that name conflicts, renaming and precedence are solver-decided. Obligations on the restored ast: each non-local identifier is a selector on the name bound by the single import of its path (bare only under a dot import), local/empty-path identifiers are bare, each used path is imported exactly once, blank and cgo imports are kept, unused ones removed, nothing else imported, ordinary import names pairwise distinct, override > source alias > resolved name. A path imported twice under two names must end up imported once. Per node type: a path on the leaves of each expression field in turn (or only on nested leaves) is found by the scan wherever it sits. Three used packages whose resolved names may look like generated aliases (p, q, p1, q1): all bound names distinct. Map-iteration-order independence of the result (shared with C16).",
   note="Paths come from a concrete pool (map keys concrete), names/aliases are one symbolic byte. Bounds as stated; gopackages/gobuild resolvers (I/O) and the printed text (contract PC) are outside. 'Blocks that need no addition keep order and decorations' is checked by C08's no-op harness.",
   design="5/C07"),
  "C08": dict(
@@ -55,7 +55,7 @@ CLAIMED.update({
   note="The qualified-identifier collapse/expand round trip through link()/mergeDecorations (part 1) and re-decoration of printed output are not covered yet.",
   design="5/C08"),
  "C17": dict(
-  text="Fault position enumerated by forking over every resolver call of the run: (a) restore: package-name resolver failing at call k during RestoreFile of files with 0-1 import specs and 1-2 (3) path-carrying identifiers; (b) decorate: identifier resolver failing at call k during DecorateFile of a positioned file with 1-2 (3) qualified selectors. Obligations: error returned and errors.Is(err, injected), no tree returned, no panic, input tree deeply equal to its snapshot, and a fresh restorer/decorator with a working resolver yields a result deeply equal to the failure-free run.",
+  text="Fault position enumerated by forking over every resolver call of the run: (a) restore: package-name resolver failing at call k during RestoreFile of files with 0-1 import specs and 1-2 (3) path-carrying identifiers; (b) decorate: identifier resolver failing at call k during DecorateFile of a positioned file with 1-2 (3) qualified selectors, parser objects and a forward reference (a declaration reached through the object link); (c) a transient failure of the package-name resolver behind a shared syntax-based resolver, retry on the same file. Obligations: error returned and errors.Is(err, injected), no tree returned, no panic, input tree deeply equal to its snapshot, and a fresh restorer/decorator with a working resolver yields a result deeply equal to the failure-free run.",
   note="The decorate-side harness is concrete apart from the failure position (file bytes and positions are fixed); the solver's share there is nil. Bounds as stated.",
   design="5/C17"),
  "C20": dict(
@@ -66,15 +66,15 @@ CLAIMED.update({
 
 CLAIMED.update({
  "C01": dict(
-  text="Decided at the ast+FileSet interface under contracts P (parser) and PC (printer). Gap lemma G: for 10 configurations (block statements, call arguments, file declarations incl. package clause, case clauses, struct fields, import specs, if/else with init, composite literals with qualified types and key-value elements, generic instantiations, generic type declarations) the real addNodeFragments gives the token/decoration fragments of a restored ast; into every gap between two tokens (forked) a forked sequence of <= 2 items that gofmt-formatted source can contain (block comments, line comments with their line break, line breaks, blank lines; bodies opaque; neighbouring comments possibly identical) is inserted where fragment()'s stable sort puts them, with every line's indent a free symbolic column; then the real link(), decorateNode and restoreNode run. Solver obligations over all indents/lengths/cursor states: no panic, every comment rendered exactly once, in source order, between the same two tokens, and the line breaks between consecutive positioned items (capped at one blank line) equal the original ones. Together with C12 (exact agreement of fragmenter and restorer token arithmetic for all 53 node types, symbolic FileSet base) and C03's field round trip this is the decorate->restore identity on canonical layouts.",
-  note="Outside: go/parser and go/printer themselves (P, PC), fragment()'s byte scan (its output shape is re-created by the harness: where items sort, one fragment per line break, Empty for blank lines), the entry-point wrappers (Parse/Print/ParseDir are thin and covered only through DecorateFile/RestoreFile in C12/C15/C20), more than 2 items per gap (quick), two decorated gaps only in thorough.",
+  text="Decided at the ast+FileSet interface under contracts P (parser) and PC (printer). (a) Pipeline: the real go/parser parses six concrete gofmt-canonical sources (and two files as one *ast.Package, the ParseDir path, map order forked) natively inside the engine; the ast is placed at a symbolic FileSet base; the real DecorateFile/DecorateNode (real fragment() byte scan, link(), decorateNode) and the real RestoreFile into a second FileSet with its own symbolic base run symbolically: restored ast equal to the parsed one except positions, same comments in order, same capped line structure between consecutive positioned items, no overlapping items. (b) Gap lemma G: for 14 configurations (block statements, call arguments, file declarations incl. package clause, case clauses, struct fields, import specs, if/else with init, composite literals with qualified types and key-value elements, generic instantiations, generic type declarations, methods with receiver/ellipsis/results and for/range loops, select/comm clauses/labels/go/defer/channel types, type switches/slices/func literals, interface embedding/alias/map types/tags) the real addNodeFragments gives the token/decoration fragments of a restored ast; into every gap between two tokens (forked) a forked sequence of <= 2 items that gofmt-formatted source can contain (block comments, line comments with their line break, line breaks, blank lines; bodies opaque; neighbouring comments possibly identical) is inserted where fragment()'s stable sort puts them, with every line's indent a free symbolic column; then the real link(), decorateNode and restoreNode run. Solver obligations over all indents/lengths/cursor states: no panic, every comment rendered exactly once, in source order, between the same two tokens, and the line breaks between consecutive positioned items (capped at one blank line) equal the original ones. Together with C12 (exact agreement of fragmenter and restorer token arithmetic for all 53 node types, symbolic FileSet base) and C03's field round trip this is the decorate->restore identity on canonical layouts.",
+  note="Outside: go/printer itself (PC); in the gap lemma fragment()'s byte scan is re-created by a model (where items sort, one fragment per line break, Empty for blank lines; gaps in front of tokens without go/ast position never receive items) while the pipeline harness runs the real scan on fixed sources; the entry-point wrappers (Parse/Print/ParseDir are thin and covered only through DecorateFile/RestoreFile in C12/C15/C20), more than 2 items per gap (quick), two decorated gaps only in thorough.",
   design="5/C01"),
  "C14": dict(
   text="(1) List-edit semantics, differential: the real dstutil.Apply and the real golang.org/x/tools astutil.Apply (the version /repo pins), both executed symbolically with reflect implemented over the engine heap, run the same script on mirrored trees (statement list / argument list of 1-3 (4) elements; at a forked element and phase a forked sequence of <= 2 operations from Replace/Delete/InsertBefore/InsertAfter and a forked return value): callback logs (phase, node, Name, Index), panics, and final lists must be equal; Parent().Name[Index]==Node() at every callback before the element is edited; for single operations no element is visited twice and inserted nodes never. Root replacement + abort returns what astutil returns. (2) Per node type: Apply's pre order equals dst.Walk order, Name()/Index() locate the node in Parent() (field lookup by name), post is called once per node with the root last, pre=false skips exactly that subtree and its post, post=false stops and still returns the tree.",
   note="Mostly shape reasoning: obligations are decided by the engine's concrete heap and term simplifier; the solver's share is small. Bounds: lists <= 4, <= 2 ops on one element, one scripted element. Package.Files map special case not covered.",
   design="5/C14"),
  "C16": dict(
-  text="(a) Data races: two thread bodies (ResolveIdent on a shared goast resolver created with New() or WithResolver(read-only map), 1-2 calls each on different files; RestoreFile with own restorers sharing a guess/simple map) are executed from the real SSA in both orders with every load/store/map access to memory reachable from the shared roots and every mutex Lock/Unlock recorded; one SMT query per run asks for integer clocks satisfying program order and mutual exclusion of critical sections such that two conflicting accesses are unordered by happens-before (program order + unlock->lock). unsat = race-free in every schedule of these events; sat is replayed with two goroutines under go test -race. Results equal the calls made alone. (b) Determinism: updateImports with every map iteration order forked over all permutations gives the same declarations and package names as insertion order.",
+  text="(a) Data races: two thread bodies (ResolveIdent on a shared goast resolver created with New() or WithResolver(read-only map), 1-2 calls each on different files; RestoreFile with own restorers sharing a guess/simple map) are executed from the real SSA in both orders with every load/store/map access to memory reachable from the shared roots and every mutex Lock/Unlock recorded; one SMT query per run asks for integer clocks satisfying program order and mutual exclusion of critical sections such that two conflicting accesses are unordered by happens-before (program order + unlock->lock). unsat = race-free in every schedule of these events; sat is replayed with two goroutines under go test -race. Also two concurrent DecorateFile calls with import management on files whose qualified identifiers carry inner comments (element writes by append/copy are events too). Results equal the calls made alone. (b) Determinism: updateImports with every map iteration order forked over all permutations gives the same declarations and package names as insertion order (also with two paths differing only in letter case; natively the randomised-map run is repeated 64 times).",
   note="Events come from sequential executions (both orders): schedule-dependent control flow inside a thread beyond that is not explored. 2 threads, <= 2 calls each. Stdlib internals behind intrinsics (sync, maps) are assumed race-free.",
   design="5/C16 and 2.7"),
  "C18": dict(
@@ -93,7 +93,7 @@ CLAIMED["C20"]["text"] += " VerifC20Disk: the public SaveWithResolver on files t
 
 CLAIMED.update({
  "C02": dict(
-  text="L1 (all 53 node types): a generic instance with a comment on every point and symbolic spacing/flags/tokens is restored from an arbitrary restorer state and from the same state translated by a symbolic delta with equal left-context freshness: the second ast, its new line starts and comments are the first's shifted by delta (solver obligation through a typed walk over all token.Pos fields) - a node renders identically wherever it is moved. L2 + edits (9 list kinds: statements, call arguments, composite-literal elements, value specs, import specs, struct fields, interface methods, file declarations, case clauses; 3 elements): chunks (0-1 comment lines directly above, trailing same-line comment, optional blank line before) are inserted into the real fragment list with gofmt-shaped symbolic indents; after the real link()/decorateNode each above-comment is in its own element's Start, each trailing comment in an End inside its own element's subtree, a blank line is Before/After of the two adjacent elements and nothing else; then the decorated list is permuted / an element deleted / moved / duplicated with Clone, restored by the real restoreNode, and every chunk comment is rendered once, next to its own element (above-lines directly above with exactly one line break, trailing comment on the element's line).",
+  text="L1 (all 53 node types): a generic instance with a comment on every point and symbolic spacing/flags/tokens is restored from an arbitrary restorer state and from the same state translated by a symbolic delta with equal left-context freshness: the second ast, its new line starts and comments are the first's shifted by delta (solver obligation through a typed walk over all token.Pos fields) - a node renders identically wherever it is moved. L2 + edits (10 list kinds: statements, call arguments, composite-literal elements, value specs, type specs, import specs, struct fields, interface methods, file declarations, case clauses; 3 elements): chunks (0-1 comment lines directly above, trailing same-line comment, optional blank line before) are inserted into the real fragment list with gofmt-shaped symbolic indents; after the real link()/decorateNode each above-comment is in its own element's Start, each trailing comment in an End inside its own element's subtree, a blank line is Before/After of the two adjacent elements and nothing else; then the decorated list is permuted / an element deleted / moved / duplicated with Clone, restored by the real restoreNode, and every chunk comment is rendered once, next to its own element (above-lines directly above with exactly one line break, trailing comment on the element's line), every element starts on its own line and the closing delimiter stays on its own line.",
   note="'Equals gofmt of the edited source' is decided at the ast+line-table interface under contract PC. Bounds: 3 elements, <= 1 comment line above (2 in thorough), uniform separators, one edit per run; quick tier trims which elements carry which chunk parts.",
   design="5/C02"),
  "C09": dict(
